@@ -320,8 +320,11 @@ def classify(mismatches, byid):
             keys[m["id"]] = k
         elif k == "star-on-union-then-failing-branch" and obs == {"t": "error", "e": "VariableUndefined"}:
             keys[m["id"]] = k
-        elif k in ("locals-shift-after-failed-branch-that-binds", "captured-member-access-ignores-shadowing"):
+        elif k in ("locals-shift-after-failed-branch-that-binds", "captured-member-access-ignores-shadowing",
+                   "match-on-verdict-narrows-source-variable", "narrowing-survives-rebinding",
+                   "spread-of-rebound-variable-uses-old-type"):
             keys[m["id"]] = k
+            pending.append(m)          # a more specific attribution (re-run / TLC variants) takes precedence
         else:
             keys[m["id"]] = None
             pending.append(m)
@@ -345,6 +348,8 @@ def classify(mismatches, byid):
                     keys[i] = "bound-variable-loses-nil"
                     continue
                 cands.append((wrapped[i], o))
+        if keys.get(i) is not None:
+            continue
         for ci, (prog, ob) in enumerate(cands):
             ni = seqgen.noinput_variant(prog)
             for bi, base in enumerate([prog] + ([ni] if ni is not None else [])):
@@ -360,6 +365,14 @@ def classify(mismatches, byid):
                 if keys.get(i) is None or bi == "0":
                     keys[i] = ("spread-tuple-fields-get-no-flowing-value" if bi == "1"
                                else "inherit-spread-union-drops-name")
+    # what is left: an ACCEPTED program that stops with a stuck error is a violation of type soundness
+    # (C01); several root causes above produce them (a value typed without nil reaches a field access,
+    # a spread or a builtin), and they are triaged under C01 rather than one by one here
+    for m in pending:
+        if keys.get(m["id"]) is None and m["obs"].get("t") == "error" and \
+                m["obs"].get("e") in ("TypeMismatch", "FieldAccessInvalid") and \
+                len(m["exp"]) == 1 and m["exp"][0].get("t") == "value":
+            keys[m["id"]] = "stuck-error-in-accepted-program"
     return keys
 
 
